@@ -8,8 +8,9 @@
 
    Time: [now] and the timer are absolute microseconds (cached_time); TrackerState times are
    absolute seconds (cached_seconds = now / 10^6). Counters are unbounded (uint32 in the code; a
-   wrap needs 2^32 replies). Trackers may be inserted while running (OInsert). Scrapes and the DHT
-   tracker kind are not modelled (no scrapable tracker, no scrape_request, no TRACKER_DHT worker),
+   wrap needs 2^32 replies). Trackers may be inserted while running (OInsert). Scrapes are modelled
+   (scrapable trackers, scrape_request, do_scrape, EVENT_SCRAPE as latest event). A reply may be split
+   into its worker part and the main-thread callback (ODone / ODrain). The DHT tracker kind is not modelled,
    so latest_event is never EVENT_SCRAPE and is_requesting_not_scrape = is_requesting.
    internal_error throws in update_timeout / send_event / tracker_next_timeout_promiscuous are
    guarded by the callers' own tests and not modelled (the harness prints ERR:internal if hit). *)
@@ -18,18 +19,18 @@ From LTV.C13 Require Import ParamsGen.
 Import ListNotations.
 Open Scope Z_scope.
 
-Inductive event := EvNone | EvCompleted | EvStarted | EvStopped.
+Inductive event := EvNone | EvCompleted | EvStarted | EvStopped | EvScrape.
 
 Definition event_eqb (a b : event) : bool :=
   match a, b with
-  | EvNone, EvNone | EvCompleted, EvCompleted | EvStarted, EvStarted | EvStopped, EvStopped => true
+  | EvNone, EvNone | EvCompleted, EvCompleted | EvStarted, EvStarted | EvStopped, EvStopped | EvScrape, EvScrape => true
   | _, _ => false
   end.
 
 (* BEP 15 (UDP tracker protocol) announce event codes: 0 none, 1 completed, 2 started, 3 stopped.
    Fixed by the protocol, not taken from the source; TrackerUdp writes the raw enum value. *)
 Definition wire_event (e : event) : Z :=
-  match e with EvNone => 0 | EvCompleted => 1 | EvStarted => 2 | EvStopped => 3 end.
+  match e with EvNone => 0 | EvCompleted => 1 | EvStarted => 2 | EvStopped => 3 | EvScrape => 4 end.
 
 (* constants re-extracted from the sources on every run *)
 Definition min_min := Params.trk_min_min_interval.
@@ -55,7 +56,9 @@ Record tracker := mkT {
   t_stl : Z;           (* success_time_last (s) *)
   t_ftl : Z;           (* failed_time_last (s) *)
   t_ni : Z;            (* m_normal_interval (s) *)
-  t_mi : Z             (* m_min_interval (s) *)
+  t_mi : Z;            (* m_min_interval (s) *)
+  t_scr : bool;        (* TrackerState::flag_scrapable *)
+  t_sct : Z            (* scrape_time_last (s) *)
 }.
 
 (* call site in TrackerController that handed the request to TrackerList::send_event *)
@@ -79,8 +82,13 @@ Record state := mkS {
   fl : flags;              (* TrackerController::m_flags *)
   tmo : option Z;          (* m_task_timeout: scheduled time in us *)
   now : Z;                 (* cached_time in us *)
-  s_up : Z; s_comp : Z; s_left : Z;   (* DownloadInfo figures *)
-  log : list req           (* requests handed to the workers, newest first *)
+  s_up : Z; s_comp : Z; s_left : Z;   (* DownloadInfo figures (adjusted: total - baseline) *)
+  log : list req;          (* ANNOUNCE requests handed to the workers, newest first *)
+  tsc : option Z;          (* m_task_scrape: scheduled time in us *)
+  slog : list (Z * nat);   (* scrape requests handed to the workers (time, tracker), newest first *)
+  hint : list nat;         (* which trackers the implementation contacted in the op about to run (see [pick_hinted]) *)
+  pend : option (nat * (bool * bool))  (* a worker's result callback queued for the main thread and not yet
+                                 run: (tracker, (success?, scrape?)) -- at most one is kept queued *)
 }.
 
 (* ---------------------------------------------------------------- TrackerState *)
@@ -114,7 +122,10 @@ Definition activity_time_next_minimum (t : tracker) : Z :=
 
 Definition is_usable (t : tracker) := t_en t.
 Definition is_in_use (t : tracker) := t_en t && negb (t_sc t =? 0).
-Definition can_request_state (t : tracker) := t_en t && negb (t_busy t).
+(* is_requesting_not_scrape: busy with an announce *)
+Definition busy_ann (t : tracker) := t_busy t && negb (event_eqb (t_ev t) EvScrape).
+(* a tracker in the middle of a SCRAPE can take an announce (it replaces the scrape) *)
+Definition can_request_state (t : tracker) := t_en t && negb (busy_ann t).
 
 Definition has_usable (l : list tracker) := existsb is_usable l.
 Definition has_active (l : list tracker) := existsb t_busy l.
@@ -158,6 +169,8 @@ Definition group_range (g : nat) (l : list tracker) : list tracker :=
   take_while (fun t => Nat.ltb (t_group t) (S g)) (drop_while (fun t => Nat.ltb (t_group t) g) l).
 
 Definition has_active_in_group (g : nat) (l : list tracker) := existsb t_busy (group_range g l).
+(* has_active_not_scrape_in_group *)
+Definition has_active_ann_in_group (g : nat) (l : list tracker) := existsb busy_ann (group_range g l).
 
 (* TrackerList::insert: base_type::insert(end_group(group), tracker) *)
 Definition insert_tracker (t : tracker) (l : list tracker) : list tracker :=
@@ -194,10 +207,14 @@ Definition now_s (s : state) : Z := now s / usec.
 
 Definition ceil_seconds (t : Z) : Z := ((t + usec - 1) / usec) * usec.
 
-Definition set_trs (s : state) l := mkS l (fl s) (tmo s) (now s) (s_up s) (s_comp s) (s_left s) (log s).
-Definition set_fl (s : state) f := mkS (trs s) f (tmo s) (now s) (s_up s) (s_comp s) (s_left s) (log s).
-Definition set_tmo (s : state) t := mkS (trs s) (fl s) t (now s) (s_up s) (s_comp s) (s_left s) (log s).
-Definition set_now (s : state) n := mkS (trs s) (fl s) (tmo s) n (s_up s) (s_comp s) (s_left s) (log s).
+Definition set_trs (s : state) l := mkS l (fl s) (tmo s) (now s) (s_up s) (s_comp s) (s_left s) (log s) (tsc s) (slog s) (hint s) (pend s).
+Definition set_fl (s : state) f := mkS (trs s) f (tmo s) (now s) (s_up s) (s_comp s) (s_left s) (log s) (tsc s) (slog s) (hint s) (pend s).
+Definition set_tmo (s : state) t := mkS (trs s) (fl s) t (now s) (s_up s) (s_comp s) (s_left s) (log s) (tsc s) (slog s) (hint s) (pend s).
+Definition set_now (s : state) n := mkS (trs s) (fl s) (tmo s) n (s_up s) (s_comp s) (s_left s) (log s) (tsc s) (slog s) (hint s) (pend s).
+Definition set_figs (s : state) up comp lft := mkS (trs s) (fl s) (tmo s) (now s) up comp lft (log s) (tsc s) (slog s) (hint s) (pend s).
+Definition set_tsc (s : state) t := mkS (trs s) (fl s) (tmo s) (now s) (s_up s) (s_comp s) (s_left s) (log s) t (slog s) (hint s) (pend s).
+Definition set_pend (s : state) p := mkS (trs s) (fl s) (tmo s) (now s) (s_up s) (s_comp s) (s_left s) (log s) (tsc s) (slog s) (hint s) p.
+Definition set_hint (s : state) h := mkS (trs s) (fl s) (tmo s) (now s) (s_up s) (s_comp s) (s_left s) (log s) (tsc s) (slog s) h (pend s).
 
 (* TrackerController::update_timeout(seconds) *)
 Definition update_timeout (sec : Z) (s : state) : state :=
@@ -227,12 +244,16 @@ Definition current_send_event (f : flags) : event :=
    and nothing touches that tracker between the caller's look and this call). *)
 Definition send_event (sr : src) (t : tracker) (ev : event) (s : state) : state :=
   if negb (is_usable t) then s
-  else if t_busy t && (event_eqb (t_ev t) ev || event_eqb ev EvNone) then s
+  else if t_busy t && (event_eqb (t_ev t) ev || (negb (event_eqb (t_ev t) EvScrape) && event_eqb ev EvNone)) then s
   else
-    (* Manager::send_event -> tracker thread: mark_starting_request; worker->send_event *)
-    mkS (upd (trs s) (t_id t) (fun x => mkT (t_id x) (t_group x) (t_en x) true ev (t_sc x) (t_fc x) (t_stl x) (t_ftl x) (t_ni x) (t_mi x)))
+    (* Manager::send_event -> tracker thread: mark_starting_request; worker->send_event, whose first act
+       (close_directly -> remove_events) cancels a result callback of this tracker still queued for main *)
+    mkS (upd (trs s) (t_id t) (fun x => mkT (t_id x) (t_group x) (t_en x) true ev (t_sc x) (t_fc x) (t_stl x) (t_ftl x) (t_ni x) (t_mi x) (t_scr x) (t_sct x)))
         (fl s) (tmo s) (now s) (s_up s) (s_comp s) (s_left s)
-        (mkR (now s) (t_id t) ev (Z.max (s_up s) 0) (Z.max (s_comp s) 0) (s_left s) (t_busy t) sr t (fl s) (trs s) :: log s).
+        (mkR (now s) (t_id t) ev (Z.max (s_up s) 0) (Z.max (s_comp s) 0) (s_left s) (t_busy t) sr t (fl s) (trs s) :: log s)
+        (tsc s) (slog s)
+        (match hint s with h :: r => if Nat.eqb h (t_id t) then r else hint s | [] => [] end)
+        (match pend s with Some (i, _) => if Nat.eqb i (t_id t) then None else pend s | None => None end).
 
 (* ---------------------------------------------------------------- controller *)
 
@@ -295,7 +316,7 @@ Definition manual_request (s : state) : state :=
   match tmo s with None => s | Some _ => send_update_event s end.
 
 Definition clear_stats (l : list tracker) : list tracker :=
-  map (fun x => mkT (t_id x) (t_group x) (t_en x) (t_busy x) (t_ev x) 0 0 (t_stl x) (t_ftl x) (t_ni x) (t_mi x)) l.
+  map (fun x => mkT (t_id x) (t_group x) (t_en x) (t_busy x) (t_ev x) 0 0 (t_stl x) (t_ftl x) (t_ni x) (t_mi x) (t_scr x) (t_sct x)) l.
 
 Definition ctl_enable (reset : bool) (s : state) : state :=
   if f_active (fl s) then s
@@ -326,7 +347,7 @@ Definition stop_requesting (s : state) : state :=
 
 (* tracker_next_timeout_promiscuous *)
 Definition next_timeout_promiscuous (nows : Z) (t : tracker) : Z :=
-  if t_busy t || negb (is_usable t) then uint32_max
+  if busy_ann t || negb (is_usable t) then uint32_max
   else
     let interval := if negb (t_fc t =? 0) then failed_time_next t - t_ftl t else Z.max (t_ni t) (t_mi t) in
     let min_interval := Z.max (t_mi t) promisc_floor in
@@ -346,6 +367,18 @@ Fixpoint find_preferred (nows : Z) (seg : list tracker) (pref : option tracker) 
     else find_preferred nows r pref ptl next
   end.
 
+(* Which of several READY trackers of one tier is contacted in promiscuous / requesting mode is a
+   tie-breaking policy the property leaves open (the code: least recent activity, then list order).
+   The correspondence run tells the model which trackers the implementation contacted in this op
+   ([hint], set by OHint: the trackers in the order the implementation contacted them; every send
+   consumes the head when it goes to that tracker); if the head of the hint is a READY tracker of the
+   tier it is taken, otherwise the code's default rule applies. The theorems hold for every hint. *)
+Definition pick_hinted (hint : list nat) (nows : Z) (seg : list tracker) : option tracker :=
+  match hint with
+  | [] => None
+  | h :: _ => find (fun t => (next_timeout_promiscuous nows t =? 0) && Nat.eqb (t_id t) h) seg
+  end.
+
 (* the promiscuous/requesting branch of do_timeout: walk the groups. [fuel] = length of the list. *)
 Fixpoint timeout_groups (fuel : nat) (ev : event) (rest : list tracker) (next : Z) (s : state) : state * Z :=
   match fuel with
@@ -358,9 +391,13 @@ Fixpoint timeout_groups (fuel : nat) (ev : event) (rest : list tracker) (next : 
       (* end_group(g): first tracker with g+1 <= group *)
       let seg := take_while (fun t => Nat.ltb (t_group t) (S g)) rest in
       let after := drop_while (fun t => Nat.ltb (t_group t) (S g)) rest in
-      if has_active_in_group g (trs s) then timeout_groups fuel' ev after next s
+      if has_active_ann_in_group g (trs s) then timeout_groups fuel' ev after next s
       else if negb (is_usable itr) || negb (t_fc itr =? 0) then
-        let '(pref, next') := find_preferred (now_s s) seg None uint32_max next in
+        let '(pref0, next') := find_preferred (now_s s) seg None uint32_max next in
+        let pref := match pref0, pick_hinted (hint s) (now_s s) seg with
+                    | Some _, Some h => Some h
+                    | _, _ => pref0
+                    end in
         match pref with
         | Some p => timeout_groups fuel' ev after next' (send_event SrcTimer p ev s)
         | None => timeout_groups fuel' ev after next' s
@@ -424,39 +461,120 @@ Definition ctl_receive_success (latest : event) (ni : Z) (s : state) : state :=
     else if negb (has_active (trs s)) then update_timeout ni s
     else s.
 
-Definition reply_success (id : nat) (iv mv : Z) (s : state) : state :=
+(* A reply consists of a WORKER part (tracker thread: request finished, intervals taken from the reply
+   through the clamping setters, result callback queued for the main thread) and a MAIN part (the
+   callback: TrackerList::receive_success, receive_failed, receive_scrape_success, receive_scrape_failed). *)
+Inductive reply := RSucc (iv mv : Z) | RFail (ivs : option (Z * Z)).
+
+Definition reply_ok (r : reply) : bool := match r with RSucc _ _ => true | RFail _ => false end.
+
+(* worker part; a scrape reply leaves the announce intervals alone *)
+Definition worker_upd (r : reply) (x : tracker) : tracker :=
+  if event_eqb (t_ev x) EvScrape
+  then mkT (t_id x) (t_group x) (t_en x) false (t_ev x) (t_sc x) (t_fc x) (t_stl x) (t_ftl x) (t_ni x) (t_mi x) (t_scr x) (t_sct x)
+  else match r with
+       | RSucc iv mv =>
+         mkT (t_id x) (t_group x) (t_en x) false (t_ev x) (t_sc x) (t_fc x) (t_stl x) (t_ftl x)
+             (set_normal_interval iv) (set_min_interval mv) (t_scr x) (t_sct x)
+       | RFail ivs =>
+         mkT (t_id x) (t_group x) (t_en x) false (t_ev x) (t_sc x) (t_fc x) (t_stl x) (t_ftl x)
+             (match ivs with Some (iv, _) => set_normal_interval iv | None => t_ni x end)
+             (match ivs with Some (_, mv) => set_min_interval mv | None => t_mi x end) (t_scr x) (t_sct x)
+       end.
+
+(* TrackerList::receive_success: promote, add_success_request; TrackerController::receive_success reads
+   latest_event() and normal_interval() through the tracker handle *)
+Definition main_success (id : nat) (s : state) : state :=
   match find_id (trs s) id with
   | None => s
   | Some t =>
-    if negb (t_busy t) then s
-    else
-      (* worker: request done, intervals from the reply through the clamping setters *)
-      let l := upd (trs s) id (fun x => mkT (t_id x) (t_group x) (t_en x) false (t_ev x) (t_sc x) (t_fc x) (t_stl x) (t_ftl x)
-                                            (set_normal_interval iv) (set_min_interval mv)) in
-      (* TrackerList::receive_success: promote, add_success_request *)
-      let l := promote id l in
-      let l := upd l id (fun x => mkT (t_id x) (t_group x) (t_en x) (t_busy x) (t_ev x) (t_sc x + 1) 0 (now_s s) (t_ftl x) (t_ni x) (t_mi x)) in
-      ctl_receive_success (t_ev t) (set_normal_interval iv) (set_trs s l)
+    let l := promote id (trs s) in
+    let l := upd l id (fun x => mkT (t_id x) (t_group x) (t_en x) (t_busy x) (t_ev x) (t_sc x + 1) 0 (now_s s) (t_ftl x) (t_ni x) (t_mi x) (t_scr x) (t_sct x)) in
+    ctl_receive_success (t_ev t) (t_ni t) (set_trs s l)
   end.
 
-Definition reply_failure (id : nat) (ivs : option (Z * Z)) (s : state) : state :=
+(* TrackerList::receive_failed: add_failed_request; TrackerController::receive_failure *)
+Definition main_failure (id : nat) (s : state) : state :=
+  let l := upd (trs s) id (fun x => mkT (t_id x) (t_group x) (t_en x) (t_busy x) (t_ev x) (t_sc x) (t_fc x + 1) (t_stl x) (now_s s) (t_ni x) (t_mi x) (t_scr x) (t_sct x)) in
+  let s := set_trs s l in
+  if negb (f_active (fl s)) then s
+  else
+    let f := fl s in
+    do_timeout (set_fl s (mkF (f_update f) (f_completed f) (f_start f) (f_stop f) (f_active f) (f_requesting f) true (f_promisc f))).
+
+(* receive_scrape_success: add_scrape_request; receive_scrape_failed and TrackerController::receive_scrape: nothing *)
+Definition main_scrape (id : nat) (ok : bool) (s : state) : state :=
+  if ok then set_trs s (upd (trs s) id (fun x => mkT (t_id x) (t_group x) (t_en x) (t_busy x) (t_ev x) (t_sc x) (t_fc x) (t_stl x) (t_ftl x) (t_ni x) (t_mi x) (t_scr x) (now_s s)))
+  else s.
+
+Definition main_part (id : nat) (ok scrape : bool) (s : state) : state :=
+  if scrape then main_scrape id ok s else if ok then main_success id s else main_failure id s.
+
+(* the atomic reply (worker part immediately followed by its callback on the main thread) *)
+Definition reply_now (id : nat) (r : reply) (s : state) : state :=
   match find_id (trs s) id with
   | None => s
   | Some t =>
     if negb (t_busy t) then s
-    else
-      let l := upd (trs s) id (fun x => mkT (t_id x) (t_group x) (t_en x) false (t_ev x) (t_sc x) (t_fc x) (t_stl x) (t_ftl x)
-                                            (match ivs with Some (iv, _) => set_normal_interval iv | None => t_ni x end)
-                                            (match ivs with Some (_, mv) => set_min_interval mv | None => t_mi x end)) in
-      (* TrackerList::receive_failed: add_failed_request *)
-      let l := upd l id (fun x => mkT (t_id x) (t_group x) (t_en x) (t_busy x) (t_ev x) (t_sc x) (t_fc x + 1) (t_stl x) (now_s s) (t_ni x) (t_mi x)) in
-      let s := set_trs s l in
-      (* TrackerController::receive_failure *)
-      if negb (f_active (fl s)) then s
-      else
-        let f := fl s in
-        do_timeout (set_fl s (mkF (f_update f) (f_completed f) (f_start f) (f_stop f) (f_active f) (f_requesting f) true (f_promisc f)))
+    else main_part id (reply_ok r) (event_eqb (t_ev t) EvScrape) (set_trs s (upd (trs s) id (worker_upd r)))
   end.
+
+Definition reply_success (id : nat) (iv mv : Z) (s : state) : state := reply_now id (RSucc iv mv) s.
+Definition reply_failure (id : nat) (ivs : option (Z * Z)) (s : state) : state := reply_now id (RFail ivs) s.
+
+(* the worker part alone: the callback stays queued (at most one, see [pend]) *)
+Definition worker_done (id : nat) (r : reply) (s : state) : state :=
+  match pend s, find_id (trs s) id with
+  | None, Some t =>
+    if negb (t_busy t) then s
+    else set_pend (set_trs s (upd (trs s) id (worker_upd r))) (Some (id, (reply_ok r, event_eqb (t_ev t) EvScrape)))
+  | _, _ => s
+  end.
+
+(* the main thread runs its queued callback *)
+Definition drain (s : state) : state :=
+  match pend s with
+  | None => s
+  | Some (id, (ok, scrape)) => main_part id ok scrape (set_pend s None)
+  end.
+
+(* ---------------------------------------------------------------- scrapes *)
+
+Definition scrape_min_gap := Params.trk_scrape_min_gap.
+
+(* TrackerController::scrape_request(seconds) *)
+Definition scrape_request (sec : Z) (s : state) : state :=
+  if sec =? 0 then set_tsc s (Some (now s))
+  else set_tsc s (Some (ceil_seconds (now s + sec * usec))).
+
+(* TrackerList::send_scrape *)
+Definition send_scrape (t : tracker) (s : state) : state :=
+  if t_busy t || negb (is_usable t) then s
+  else if negb (t_scr t) then s
+  else if now s <? (t_sct t + scrape_min_gap) * usec then s
+  else mkS (upd (trs s) (t_id t) (fun x => mkT (t_id x) (t_group x) (t_en x) true EvScrape (t_sc x) (t_fc x) (t_stl x) (t_ftl x) (t_ni x) (t_mi x) (t_scr x) (t_sct x)))
+           (fl s) (tmo s) (now s) (s_up s) (s_comp s) (s_left s) (log s) (tsc s) ((now s, t_id t) :: slog s) (hint s) (pend s).
+
+(* TrackerController::do_scrape: per group without any active request, the first scrapable usable tracker *)
+Fixpoint scrape_groups (fuel : nat) (rest : list tracker) (s : state) : state :=
+  match fuel with
+  | O => s
+  | S fuel' =>
+    match rest with
+    | [] => s
+    | itr :: _ =>
+      let g := t_group itr in
+      let seg := take_while (fun t => Nat.ltb (t_group t) (S g)) rest in
+      let after := drop_while (fun t => Nat.ltb (t_group t) (S g)) rest in
+      if has_active_in_group g (trs s) then scrape_groups fuel' after s
+      else match find (fun t => t_scr t && is_usable t) seg with
+           | Some t => scrape_groups fuel' after (send_scrape t s)
+           | None => scrape_groups fuel' after s
+           end
+    end
+  end.
+
+Definition do_scrape (s : state) : state := scrape_groups (length (trs s)) (trs s) s.
 
 (* ---------------------------------------------------------------- tracker enable / disable *)
 
@@ -466,7 +584,7 @@ Definition tracker_enable (id : nat) (s : state) : state :=
   | Some t =>
     if t_en t then s
     else
-      let s := set_trs s (upd (trs s) id (fun x => mkT (t_id x) (t_group x) true (t_busy x) (t_ev x) (t_sc x) (t_fc x) (t_stl x) (t_ftl x) (t_ni x) (t_mi x))) in
+      let s := set_trs s (upd (trs s) id (fun x => mkT (t_id x) (t_group x) true (t_busy x) (t_ev x) (t_sc x) (t_fc x) (t_stl x) (t_ftl x) (t_ni x) (t_mi x) (t_scr x) (t_sct x))) in
       (* receive_tracker_enabled *)
       if negb (has_usable (trs s)) then s
       else if f_active (fl s) && (match tmo s with None => true | Some _ => false end) && negb (has_active (trs s))
@@ -479,7 +597,7 @@ Definition tracker_disable (id : nat) (s : state) : state :=
   | Some t =>
     if negb (t_en t) then s
     else
-      let s := set_trs s (upd (trs s) id (fun x => mkT (t_id x) (t_group x) false (t_busy x) (t_ev x) (t_sc x) (t_fc x) (t_stl x) (t_ftl x) (t_ni x) (t_mi x))) in
+      let s := set_trs s (upd (trs s) id (fun x => mkT (t_id x) (t_group x) false (t_busy x) (t_ev x) (t_sc x) (t_fc x) (t_stl x) (t_ftl x) (t_ni x) (t_mi x) (t_scr x) (t_sct x))) in
       (* receive_tracker_disabled *)
       if f_active (fl s) && (match tmo s with None => true | Some _ => false end)
       then update_timeout 0 s else s
@@ -495,21 +613,41 @@ Inductive op :=
 | OSuccess (id : nat) (iv mv : Z) | OFailure (id : nat) (ivs : option (Z * Z))
 | OAdvance (dt : Z) | ONext
 | OStats (up comp lft : Z)
-| OStart (skip_tracker : bool)   (* Download::start: enable[_dont_reset_stats]; send_start_event *)
+| OStart (skip_tracker : bool)   (* Download::start(flags): enable[_dont_reset_stats]; uploaded/completed baselines := totals; [send_start_event] *)
+| OStartK (skip_tracker : bool)  (* Download::start with start_keep_baseline *)
 | OStop (skip_tracker : bool)    (* Download::stop: [send_stop_event]; disable *)
-| OInsert (g : nat).             (* TrackerList::insert of a new tracker in group g (add_extra_tracker) *)
+| OInsert (g : nat) (scr : bool)  (* TrackerList::insert of a new tracker in group g (add_extra_tracker) *)
+| OScrapeRequest (sec : Z)       (* TrackerController::scrape_request *)
+| ONextScrape                    (* clock jumps to the scrape timer *)
+| ODone (id : nat) (r : reply)   (* worker part of a reply only: the result callback stays queued *)
+| ODrain                         (* the main thread runs the queued callback *)
+| OHint (ids : list nat).        (* correspondence only: the trackers the implementation contacts in the next op *)
 
-(* Scheduler::perform(now) for the single controller task *)
-Definition perform (s : state) : state :=
-  match tmo s with
-  | Some t => if t <=? now s then do_timeout s else s
-  | None => s
+(* Scheduler::perform(now) for the controller's two tasks (announce timer, scrape timer). Due tasks
+   run in time order. When both are due at the same instant the order is decided by the scheduler's
+   heap and is not constrained by the property: the harness fires due tasks itself, in this order
+   (announce timer first). At most two firings can happen (neither handler re-arms a task that is
+   already due); the fuel is 4. *)
+Definition perform1 (s : state) : option state :=
+  let dt := match tmo s with Some t => t <=? now s | None => false end in
+  let ds := match tsc s with Some t => t <=? now s | None => false end in
+  let t_first := match tmo s, tsc s with Some a, Some b => a <=? b | _, _ => true end in
+  if dt && (negb ds || t_first) then Some (do_timeout s)
+  else if ds then Some (do_scrape (set_tsc s None))
+  else None.
+
+Fixpoint perform_n (fuel : nat) (s : state) : state :=
+  match fuel with
+  | O => s
+  | S f => match perform1 s with Some s' => perform_n f s' | None => s end
   end.
+
+Definition perform (s : state) : state := perform_n 4 s.
 
 (* TrackerList::insert: place at end_group(g), then m_slot_tracker_enabled -> receive_tracker_enabled.
    The new tracker's identity is the number of trackers inserted so far. *)
-Definition insert_op (g : nat) (s : state) : state :=
-  let s := set_trs s (insert_tracker (mkT (length (trs s)) g true false EvNone 0 0 0 0 min_normal min_min) (trs s)) in
+Definition insert_op (g : nat) (scr : bool) (s : state) : state :=
+  let s := set_trs s (insert_tracker (mkT (length (trs s)) g true false EvNone 0 0 0 0 min_normal min_min scr 0) (trs s)) in
   if negb (has_usable (trs s)) then s
   else if f_active (fl s) && (match tmo s with None => true | Some _ => false end) && negb (has_active (trs s))
   then update_timeout 0 s else s.
@@ -537,25 +675,48 @@ Definition step (s : state) (o : op) : state :=
     | Some t => perform (set_now s (Z.max t (now s)))
     | None => s
     end
-  | OStats up comp lft => mkS (trs s) (fl s) (tmo s) (now s) up comp lft (log s)
-  | OStart skip => if skip then ctl_enable false s else send_start_event (ctl_enable true s)
+  | OStats up comp lft => set_figs s up comp lft
+  | OStart skip =>
+    (* s_up / s_comp are the ADJUSTED figures (total - baseline): resetting the baselines to the
+       totals makes them 0; this happens after enable and BEFORE the started event is sent *)
+    let s1 := if skip then ctl_enable false s else ctl_enable true s in
+    let s2 := set_figs s1 0 0 (s_left s1) in
+    if skip then s2 else send_start_event s2
+  | OStartK skip => if skip then ctl_enable false s else send_start_event (ctl_enable true s)
   | OStop skip => ctl_disable (if skip then s else send_stop_event s)
-  | OInsert g => insert_op g s
+  | OInsert g scr => insert_op g scr s
+  | OScrapeRequest sec => scrape_request (Z.max sec 0) s
+  | ONextScrape =>
+    match tsc s with
+    | Some t => perform (set_now s (Z.max t (now s)))
+    | None => s
+    end
+  | ODone id r => worker_done id r s
+  | ODrain => drain s
+  | OHint ids => set_hint s ids
   end.
 
-Definition new_tracker (id g : nat) : tracker :=
-  mkT id g true false EvNone 0 0 0 0 min_normal min_min.
+Definition new_tracker (id : nat) (g : nat * bool) : tracker :=
+  mkT id (fst g) true false EvNone 0 0 0 0 min_normal min_min (snd g) 0.
 
-Fixpoint insert_all (id : nat) (groups : list nat) (l : list tracker) : list tracker :=
+(* layout: (group, scrapable) per tracker in insertion order *)
+Fixpoint insert_all (id : nat) (groups : list (nat * bool)) (l : list tracker) : list tracker :=
   match groups with
   | [] => l
   | g :: r => insert_all (S id) r (insert_tracker (new_tracker id g) l)
   end.
 
+(* the uploaded / downloaded / left figures an announce made by op [o] from state [s] must carry *)
+Definition figs_for (s : state) (o : op) : Z * Z * Z :=
+  match o with
+  | OStart _ => (0, 0, s_left s)
+  | _ => (s_up s, s_comp s, s_left s)
+  end.
+
 Definition no_flags := mkF false false false false false false false false.
 
-Definition init (t0 : Z) (groups : list nat) : state :=
-  mkS (insert_all O groups []) no_flags None t0 0 0 0 [].
+Definition init (t0 : Z) (groups : list (nat * bool)) : state :=
+  mkS (insert_all O groups []) no_flags None t0 0 0 0 [] None [] [] None.
 
 Definition run (s : state) (ops : list op) : state := fold_left step ops s.
 
@@ -569,9 +730,10 @@ Definition client_level (o : op) : Prop := o <> OSendStop.
 Definition clears (ev : event) (s : state) (o : op) : Prop :=
   match o with
   | OSendStop | OStop false => True
-  | OSendStart | OStart false => ev <> EvStarted
+  | OSendStart | OStart false | OStartK false => ev <> EvStarted
   | OSendCompleted => ev <> EvCompleted
   | OSuccess id _ _ => f_active (fl s) = true /\ exists t, find_id (trs s) id = Some t /\ t_busy t = true /\ t_ev t = ev
+  | ODrain => f_active (fl s) = true /\ exists id t, pend s = Some (id, (true, false)) /\ find_id (trs s) id = Some t /\ t_ev t = ev
   | _ => False
   end.
 
